@@ -17,7 +17,8 @@ def wrap(schemas, paths=None):
     return {"openapi": "3.1.0", "info": {"title": "t", "version": "1"}, "paths": paths or {}, "components": {"schemas": schemas}}
 
 
-CHILD_FIELDS = {"Alpha": ("av", "string", "x"), "Beta": ("bv", "integer", 7), "Gamma": ("gv", "boolean", True), "Delta": ("dv", "number", 1.5)}
+CHILD_FIELDS = {"Alpha": ("av", "string", "x"), "Beta": ("bv", "integer", 7), "Gamma": ("gv", "boolean", True), "Delta": ("dv", "number", 1.5),
+                "AlphaKid": ("av", "string", "x"), "BetaKid": ("bv", "integer", 7)}
 
 
 def tag_schema(tagtype, values):
@@ -140,6 +141,26 @@ def configs():
     for flags, reach in ((["--only", "get_base,get_alpha"], ["Alpha"]), (["--exclude", "get_beta"], ["Alpha"]), ([], ["Alpha", "Beta"]), (["--only", "get_base"], [])):
         out.append({"name": "filtered/" + "_".join(flags or ["default"]), "spec": wrap(schemas, paths), "flags": flags,
                     "unions": [{"name": "Base", "kind": "base", "prop": "kind", "mapping": {"a": "Alpha", "b": "Beta"}, "members": ["Alpha", "Beta"], "base": "BaseBase", "reachable": reach}]})
+    # ---- the same filters with child schemas whose names are not their Rust type names (alpha_kid -> AlphaKid)
+    schemas = {"Base": {"type": "object", "required": ["kind"], "properties": {"kind": {"type": "string"}},
+                        "discriminator": {"propertyName": "kind", "mapping": {"a": "#/components/schemas/alpha_kid", "a2": "#/components/schemas/alpha_kid", "b": "#/components/schemas/beta-kid"}}},
+               "alpha_kid": {"allOf": [R("Base"), {"type": "object", "properties": {"av": {"type": "string"}}}]},
+               "beta-kid": {"allOf": [R("Base"), {"type": "object", "properties": {"bv": {"type": "integer"}}}]}}
+    paths = {"/base": both("get_base", "Base"), "/alpha": both("get_alpha", "alpha_kid"), "/beta": both("get_beta", "beta-kid")}
+    for flags, reach in ((["--only", "get_base,get_alpha"], ["AlphaKid"]), ([], ["AlphaKid", "BetaKid"]), (["--exclude", "get_alpha"], ["BetaKid"])):
+        out.append({"name": "filtered-rawnames/" + "_".join(flags or ["default"]), "spec": wrap(schemas, paths), "flags": flags,
+                    "unions": [{"name": "Base", "kind": "base", "prop": "kind", "mapping": {"a": "AlphaKid", "a2": "AlphaKid", "b": "BetaKid"}, "members": ["AlphaKid", "BetaKid"], "base": "BaseBase", "reachable": reach}]})
+    # ---- a discriminated union wrapped in a nullable union (the wrapper is flattened into the inner union)
+    for kw in ("oneOf", "anyOf"):
+        schemas = {}
+        for c in ("Alpha", "Beta", "Gamma"):
+            f, ty, _ = CHILD_FIELDS[c]
+            schemas[c] = {"type": "object", "required": ["kind"], "properties": {"kind": {"type": "string"}, f: {"type": ty}}}
+        mapping = {"a": "Alpha", "b": "Beta", "g": "Gamma", "g2": "Gamma"}
+        inner = {kw: [R("Alpha"), R("Beta"), R("Gamma")], "discriminator": {"propertyName": "kind", "mapping": {t: f"#/components/schemas/{c}" for t, c in mapping.items()}}}
+        schemas["Uni"] = {"oneOf": [inner, {"type": "null"}]}
+        out.append({"name": f"{kw}/nullable-wrapper", "spec": wrap(schemas),
+                    "unions": [{"name": "Uni", "kind": "union", "prop": "kind", "mapping": mapping, "members": ["Alpha", "Beta", "Gamma"], "base": None}]})
     return out
 
 
